@@ -1500,6 +1500,22 @@ func genFedcheck(o *Out, tier string, r *Rng) {
 					}
 				}
 			}
+		case 4: // a newcomer banned before ever joining: the join cites create / power levels / join rules only (all of them in the
+			// returned state), the ban sits in the returned state uncited — allowed by its auth events, refused by the state
+			// (seeded change C14-r8m1 skipped the second check when every cited event is in the state)
+			u := "@outcast:hs5"
+			auth := rm.authFor(spec.MRoomMember, u, sp(u))
+			if b := rm.send(spec.MRoomMember, rm.admin, sp(u), map[string]interface{}{"membership": "ban"}, true, nil); b != nil {
+				e, cls := rm.g.MkU(spec.MRoomMember, u, sp(u), map[string]interface{}{"membership": "join"}, rm.prev(), auth, nil)
+				if e != nil {
+					join = rm.add(e, cls)
+					sc.labels = append(sc.labels, "join-banned-uncited")
+					sc.state = append(sc.state, rm.tok(b))
+					if r.Bool() {
+						sc.auth = append(sc.auth, rm.tok(b))
+					}
+				}
+			}
 		case 1: // cites auth events the response does not contain
 			u := "@newcomer:hs5"
 			e, cls := rm.g.MkU(spec.MRoomMember, u, sp(u), map[string]interface{}{"membership": "join"}, rm.prev(), []string{"$nowhere:hs1"}, nil)
